@@ -40,6 +40,24 @@ def cmp_fn(ctx, construct, rel, qual, spec_src, opts=None, holes=None, name=None
             if unify(exp, got, b):
                 holes.update(b)
                 return ctx.ok(construct, where=where)
+        if got != exp and 'unroll' not in kw:
+            # loops with a small constant trip count written in different styles (for w in W / for k in range(len(W)))
+            # have the same unrolled form: equal unrolled terms are the same computation
+            for n in (8, 32):
+                try:
+                    g2 = ctx.fn_term(rel, qual, opts=opts, unroll=n, **kw)
+                    e2 = ctx.spec_term(spec_src, opts=opts, name=name, unroll=n, **kw)
+                except (T.Unsupported, RecursionError):
+                    break
+                if holes is not None:
+                    b = {}
+                    if unify(e2, g2, b):
+                        holes.update(b)
+                        ctx.notes.setdefault('accepted after unrolling small loops', []).append(construct)
+                        return ctx.ok(construct, where=where)
+                if g2 == e2 or equiv_mod_ite(g2, e2):
+                    ctx.notes.setdefault('accepted after unrolling small loops', []).append(construct)
+                    return ctx.ok(construct, where=where)
         return ctx.same_term(construct, got, exp, where=where)
     return ctx.guard(construct, go, where=where)
 
